@@ -18,6 +18,7 @@ from fractions import Fraction
 import numpy as np
 from .. import common
 from ..common import enc, ask
+from ..translator import py2lean
 
 LEVEL = "proof"
 RULE = ("pairs of finite diagrams from one PRNG: sizes 0,1,2,.. (0-8 quick, up to 40 thorough), coordinates from "
@@ -65,6 +66,18 @@ CORE_THEOREMS = ["PersimVerif.C06.checkRows_sound_bn",               # accepted 
                  "PersimVerif.C06.model_rows_independent_of_solver_value"]
 PROP_FILES = ["PersimVerif/Props/C06.lean"]
 PROP_FILES += ["PersimVerif/Props/C06Model.lean"]
+# source translator (DESIGN.md 3.2): the two extraction loops (and the statements that feed them: Step 2 of bottleneck, the solver
+# call and sum of wasserstein) are re-translated from the source text on every run and proved equal to the models' `extractRows` /
+# `rowsOf`, which Props/C06Model.lean is about
+SRC_KEYS = ("bottleneck", "bottleneck_search", "wasserstein", "wasserstein_assign")   # (the matrix files: what precedes the loops)
+for _k in SRC_KEYS:
+    PROP_FILES += [f for f in py2lean.prop_files(_k) if f not in PROP_FILES]
+TRUSTED = list(TRUSTED) + [py2lean.trusted_note(_k) for _k in ("bottleneck_search", "wasserstein_assign")]
+
+
+def pre_build(ctx):
+    """source translator: regenerate Generated/SrcBottleneck*.lean, SrcWasserstein*.lean from PERSIM_ROOT's source"""
+    py2lean.pre_build(ctx, SRC_KEYS)
 
 
 # ----------------------------------------------------------------------------- generators
@@ -652,6 +665,7 @@ CORPUS = [
 
 
 def run(ctx):
+    py2lean.report_broken(ctx, PROP_FILES)
     r = ctx.rng
     ctx.extra["core_theorems"] = CORE_THEOREMS
     ctx.extra["source_digest"] = {"bottleneck": common.source_digest(FILES[0], ["bottleneck"]),
@@ -793,3 +807,4 @@ MANIFEST = {
             "assignment captured from the solver inside the real call.",
     "technique": "Lean-proved certificate checker run on every returned matching + theorems about the extraction loops",
 }
+MANIFEST["note"] += " " + " ".join(py2lean.manifest_note(_k) for _k in ("bottleneck_search", "wasserstein_assign"))
